@@ -2,6 +2,7 @@
 mod c01;
 mod c05;
 mod c06;
+mod c07;
 mod c10;
 mod c11;
 mod common;
@@ -17,6 +18,7 @@ fn main() {
         "c01" => c01::run(&a),
         "c05" => c05::run(&a),
         "c06" => c06::run(&a),
+        "c07" => c07::run(&a),
         "c10" => c10::run(&a),
         "c11" => c11::run(&a),
         other => {
